@@ -7,6 +7,9 @@ import SecpZkp.Gen.K_scalar4x64
 import SecpZkp.Gen.K_scalar8x32
 import SecpZkp.Gen.F_group
 import SecpZkp.Gen.F_ellswift
+import SecpZkp.Gen.F_generator
+import SecpZkp.Gen.P_ecdsa
+import SecpZkp.Gen.P_schnorr
 import SecpZkp.Gen.K_int128struct
 /-
   `k_run <set>.<def> <in>* / <out>*` : executes a translated C function (MiniC IR regenerated from the
@@ -69,7 +72,8 @@ def hKRun : Handler
           magnitude precondition is violated on the way
 -/
 def fTable : List (String × FeIR.Fn) :=
-  (Gen.group.all.map fun p => ("group." ++ p.1, p.2)) ++ (Gen.ellswift.all.map fun p => ("ellswift." ++ p.1, p.2))
+  (Gen.group.all.map fun p => ("group." ++ p.1, p.2)) ++ (Gen.ellswift.all.map fun p => ("ellswift." ++ p.1, p.2)) ++
+  (Gen.generator.all.map fun p => ("generator." ++ p.1, p.2))
 
 def hFRun : Handler
   | fname :: rest => do
@@ -94,7 +98,50 @@ def hFRun : Handler
         | _ => if feNames.contains t then hx (Bytes.be32 (FeIR.canon (st.fe.get t).val)) else showHex (st.ints.get t 0)))
   | _ => none
 
-def minicHandlers : List (String × Handler) := [("k_run", hKRun), ("f_run", hFRun)]
+/-
+  `p_run Pecdsa.<def> <args>` : executes a protocol core translated to AlgIR (mode P) on algebraic values; arguments are
+  positional (scalars: 64 hex digits, points: point tokens, ints: decimal) in the order of the C parameters that are inputs:
+    sig_verify  sigr sigs pubkey message            -> ret
+    sig_sign    seckey message nonce                -> ret sigr sigs recid
+    sig_recover sigr sigs message recid             -> ret pubkey
+  `p_run Pschnorr.verify sig64 msg pubkey`           -> ret i<illegal callbacks>
+-/
+def pTable : List (String × AlgIR.Fn) :=
+  (Gen.Pecdsa.all.map fun p => ("Pecdsa." ++ p.1, p.2)) ++ (Gen.Pschnorr.all.map fun p => ("Pschnorr." ++ p.1, p.2))
+
+def scArg (st : AlgIR.State) (name tok : String) : Option AlgIR.State := do
+  let b ← hexN? 32 tok
+  some { st with sc := AlgIR.update st.sc name (Bytes.toNat b) }
+
+def hPRun : Handler
+  | fname :: args => do
+    let fn ← (pTable.find? (·.1 == fname)).map (·.2)
+    let st0 : AlgIR.State := {}
+    match fname, args with
+    | "Pecdsa.sig_verify", [r, s, q, m] =>
+      let st ← scArg st0 "sigr" r; let st ← scArg st "sigs" s; let st ← scArg st "message" m
+      let qp ← pt? q
+      let o := AlgIR.execL { st with pt := AlgIR.update st.pt "pubkey" qp } fn.body
+      some (showHex (o.ints.get "ret" 0))
+    | "Pecdsa.sig_sign", [sec, m, k] =>
+      let st ← scArg st0 "seckey" sec; let st ← scArg st "message" m; let st ← scArg st "nonce" k
+      let o := AlgIR.execL st fn.body
+      some (join [showHex (o.ints.get "ret" 0), hx (Bytes.be32 (o.scGet "sigr" % N)), hx (Bytes.be32 (o.scGet "sigs" % N)), showHex (o.ints.get "recid" 0)])
+    | "Pecdsa.sig_recover", [r, s, m, recid] =>
+      let st ← scArg st0 "sigr" r; let st ← scArg st "sigs" s; let st ← scArg st "message" m
+      let rc ← nat? recid
+      let o := AlgIR.execL { st with ints := st.ints.set "recid" 0 rc } fn.body
+      let ret := o.ints.get "ret" 0
+      some (join [showHex ret, if ret ≠ 0 then showPt (o.ptGet "pubkey") else "-"])
+    | "Pschnorr.verify", [sig, msg, pk] =>      -- sig64 (64 bytes), message (any length, `-` empty), x-only key object (point token, Z = all-zero object)
+      let sg ← hexN? 64 sig; let mg ← hex? msg; let q ← pt? pk
+      let st : AlgIR.State := { bs := [("sig64@0", sg.take 32), ("sig64@32", sg.drop 32), ("msg", mg)], pt := [("pubkey", q)] }
+      let o := AlgIR.execL st fn.body
+      some (join [showHex (o.ints.get "ret" 0), "i" ++ toString (o.ints.get "illegal" 0)])
+    | _, _ => none
+  | _ => none
+
+def minicHandlers : List (String × Handler) := [("k_run", hKRun), ("f_run", hFRun), ("p_run", hPRun)]
 
 end Driver
 end SecpZkp
